@@ -164,6 +164,26 @@ def run_function_level(m, scratch, rng, rep, n_seq):
                 elif len(ran) != 1:
                     rep.violation("C19:readonly-unmemoized-call-execs", "unmemoized call through read-only store ran the body %d times" % len(ran),
                                   {"variant": variant, "populate": pre, "spec": sp})
+            # results staged on disk by the body (on-disk partitions) are the body's business, not the store's: nothing may
+            # appear under the store while the call runs or while its result is alive
+            keep_alive = []
+            for oi, kindp in enumerate(("odpart", "part")):
+                osp = {"id": 100 * s + 90 + oi, "ret": {"k": kindp, "v": [["a", {"k": "int", "v": 1}], ["b", {"k": "bytes", "v": "00ff"}]]}}
+                try:
+                    total += 1
+                    pr = fnmod.n0(osp)
+                    keep_alive.append(pr)
+                    if sorted(pr.list_keys()) != ["a", "b"] or pr.get("a") != 1:
+                        rep.violation("C19:readonly-partition-result", "a partition computed through a read-only store reads keys %r" % (sorted(pr.list_keys()),), {"variant": variant, "spec": osp})
+                except Exception as e:
+                    rep.violation("C19:call-through-readonly-raised", "call raised %s: %s" % (type(e).__name__, e), {"variant": variant, "spec": osp})
+            mid = mutation_events(BD._AUDIT["log"])
+            if mid or fnlib.tree_snapshot(root) != snap:
+                rep.violation("C19:function-level-mutation-through-readonly", "a call returning a partition through a read-only cluster changed the store: %r" % (mid[:3],),
+                              {"variant": variant, "populate": pre, "result": "on-disk / in-memory partition, still referenced"})
+            del keep_alive
+            import gc
+            gc.collect()
             # forget through the function API must be rejected
             for what in ("forget", "forget_all", "put_metadata"):
                 try:
